@@ -135,7 +135,7 @@ CLAIMED = {
                   "formulas; dt*symbol_{L,a}(k) = symbol_{1,alpha}(k) at every mode for every coefficient list; rescaling invariance of the groups; every ETD tableau depends on (h,N) only "
                   "through h*N; the linear symbol of each concrete stepper equals the generic symbol with the equivalent coefficient list (D<=3). The hand-written symbol model is compared with "
                   "the real _build_linear_operator of every class at every stored mode in exact rational arithmetic.",
-             note="The scaling of the built-in nonlinear terms with 1/L (beta_1 = b dt/L, beta_2 = b dt/L^2) is proved only at tableau level (h*N) and checked on the real code by the witness "
+             note="The scaling of the built-in single-channel convection and gradient-norm terms with 1/L (beta_1 = b dt/L, beta_2 = b dt/L^2) is proved at term level (Nonlin/Scales.v) and at tableau level (h*N); the multi-channel and vorticity forms are checked on the real code by the witness "
                   "(general vs normalized vs difficulty steppers, rescalings, orders 0-4). Empty-tuple IndexError of reduce/extract is totalised in the model.",
              technique="Rocq proof (field identities, list induction) on AST-translated conversion functions + exact-rational symbol correspondence", design="§4 C13"),
  "C20": dict(text="Theorems (all shapes, all D/N/C, all flag combinations) that each rejection predicate is true exactly on the documented-invalid inputs: stepper / repeated-stepper "
